@@ -85,38 +85,74 @@ struct Obs {
 }
 #[cfg(not(verif_replay))]
 impl Obs {
-	fn new(rx: oneshot::Receiver<Result<()>>) -> Self {
+	fn new(rx: oneshot::Receiver<Result<()>>, visible: &Arc<AtomicU64>) -> Self {
+		unsafe {
+			oneshot::HORIZON_PROBE = Arc::as_ptr(visible);
+		}
 		Obs { rx }
 	}
 	/// (completed, ok, order)
 	fn get(&mut self) -> (u32, bool, u32) {
 		(self.rx.slot.sends.get(), self.rx.slot.ok.get(), self.rx.slot.order.get())
 	}
+	/// the visibility horizon at the moment the completion was sent (u64::MAX: not sent)
+	fn horizon_at_completion(&self) -> u64 {
+		self.rx.slot.horizon_at_send.get()
+	}
 }
+// Native observation of a real tokio oneshot: the receiver is polled once with a waker that records the
+// visibility horizon (and a global order stamp) at the instant the sender wakes it, i.e. exactly when
+// `complete()` sends - what the committer resumed by that completion would see.
 #[cfg(verif_replay)]
-struct Obs {
-	rx: oneshot::Receiver<Result<()>>,
-	seen: Option<bool>,
-	order: u32,
+struct HorizonWaker {
+	visible: Arc<AtomicU64>,
+	seen: AtomicU64,
+	order: AtomicU64,
 }
 #[cfg(verif_replay)]
 static REPLAY_CLOCK: AtomicU64 = AtomicU64::new(0);
 #[cfg(verif_replay)]
-impl Obs {
-	fn new(rx: oneshot::Receiver<Result<()>>) -> Self {
-		Obs { rx, seen: None, order: 0 }
+impl std::task::Wake for HorizonWaker {
+	fn wake(self: Arc<Self>) {
+		if self.seen.load(Ordering::SeqCst) == u64::MAX {
+			self.seen.store(self.visible.load(Ordering::Acquire), Ordering::SeqCst);
+			self.order.store(REPLAY_CLOCK.fetch_add(1, Ordering::SeqCst) + 1, Ordering::SeqCst);
+		}
 	}
-	fn get(&mut self) -> (u32, bool, u32) {
+}
+#[cfg(verif_replay)]
+struct Obs {
+	rx: oneshot::Receiver<Result<()>>,
+	w: Arc<HorizonWaker>,
+	seen: Option<bool>,
+}
+#[cfg(verif_replay)]
+impl Obs {
+	fn new(rx: oneshot::Receiver<Result<()>>, visible: &Arc<AtomicU64>) -> Self {
+		let w = Arc::new(HorizonWaker { visible: Arc::clone(visible), seen: AtomicU64::new(u64::MAX), order: AtomicU64::new(0) });
+		let mut o = Obs { rx, w, seen: None };
+		o.poll();
+		o
+	}
+	fn poll(&mut self) {
+		use std::future::Future;
 		if self.seen.is_none() {
-			if let Ok(r) = self.rx.try_recv() {
-				self.seen = Some(r.is_ok());
-				self.order = REPLAY_CLOCK.fetch_add(1, Ordering::SeqCst) as u32 + 1;
+			let waker = std::task::Waker::from(Arc::clone(&self.w));
+			let mut cx = std::task::Context::from_waker(&waker);
+			if let std::task::Poll::Ready(r) = std::pin::Pin::new(&mut self.rx).poll(&mut cx) {
+				self.seen = Some(matches!(r, Ok(Ok(()))));
 			}
 		}
+	}
+	fn get(&mut self) -> (u32, bool, u32) {
+		self.poll();
 		match self.seen {
-			Some(ok) => (1, ok, self.order),
+			Some(ok) => (1, ok, self.w.order.load(Ordering::SeqCst) as u32),
 			None => (0, false, 0),
 		}
+	}
+	fn horizon_at_completion(&self) -> u64 {
+		self.w.seen.load(Ordering::SeqCst)
 	}
 }
 
@@ -149,7 +185,7 @@ fn publish_exposes_applied_prefix(k: usize, head0: u32, order: [usize; K]) {
 		next += cnt[i] as u64;
 		pipe.pending.enqueue(Arc::clone(&b));
 		batches[i] = Some(b);
-		obs[i] = Some(Obs::new(rx));
+		obs[i] = Some(Obs::new(rx, &pipe.visible_seq_num));
 		i += 1;
 	}
 	let mut applied = [false; K];
@@ -192,6 +228,9 @@ fn publish_exposes_applied_prefix(k: usize, head0: u32, order: [usize; K]) {
 				assert!(sends == 1 || fails[q], "batch covered by the horizon but commit() not released");
 				if sends == 1 && !fails[q] {
 					assert!(ok, "successful batch completed with an error");
+					// commit() is resumed by this completion: a transaction it begins right away must
+					// already see the commit
+					assert!(obs[q].as_ref().unwrap().horizon_at_completion() >= end[q], "commit() released before the visibility horizon covered its batch");
 				}
 			} else if !fails[q] {
 				assert!(sends == 0, "commit() released before its batch is visible");
